@@ -11,14 +11,21 @@
 // points the model rejects (nil when none is rejected); every (series, field) touched by the
 // batch — including the fields of rejected points that precede the offending field — is read
 // back through cursors and must equal the model of accepted points.
+//
+// TestPropConcurrentPartialWrites (end of file) applies the same oracle to 2..4 concurrent writers
+// that introduce the same new field with different types (the rejection reason "field type
+// conflict" decided by a race).
 package c40_partial
 
 import (
 	"errors"
 	"fmt"
 	"os"
+	"runtime"
 	"sort"
 	"strings"
+	"sync"
+	"sync/atomic"
 	"testing"
 	"time"
 
@@ -34,7 +41,7 @@ import (
 )
 
 var rec = ev.For("C40", "exploration",
-	"case = a schema seeded on a real shard plus 1..3 generated batches of 1..12 points mixing valid points with points rejected for a field type conflict (first/middle/last field), a `time` tag, only a `time` field, a too-long string field, or invalid UTF-8 in a tag (ValidateKeys); non-trivial = a batch with >=1 accepted and >=1 rejected point where a rejected point's first field is valid; distinct by rendered batch")
+	"case = a schema seeded on a real shard plus 1..3 generated batches of 1..12 points mixing valid points with points rejected for a field type conflict (first/middle/last field), a `time` tag, only a `time` field, a too-long string field, or invalid UTF-8 in a tag (ValidateKeys); non-trivial = a batch with >=1 accepted and >=1 rejected point where a rejected point's first field is valid; distinct by rendered batch. Concurrent cases: 2..4 writers call WritePoints at once, each batch introducing the same new field of 6..40 fresh measurements with writer-specific types between valid / conflicting / time-tag / invalid-UTF-8 points; non-trivial = a writer that lost >=1 race and has >=1 accepted point; distinct by rendered batches")
 
 const knownTimeKey = "time-field-not-stripped"
 
@@ -741,4 +748,353 @@ func TestKnown_time_field_not_stripped(t *testing.T) {
 	rec.Known(t, "TestKnown_time_field_not_stripped", knownTimeKey, reproduced,
 		fmt.Sprintf("write [m,host=a a=1,time=true] (reported: time stripped, dropped=0), then [m,host=a a=2,time=5i ; m,host=b a=3]: no point is rejectable, yet WritePoints returns %q instead of nil / PartialWriteError{Dropped:0}; the `time` field is not stripped but stored under field key \"time\", and the accepted points of the failed batch are in the cache only", fmt.Sprint(err2)),
 		map[string]any{"first_write_error": fmt.Sprint(err1), "second_write_error": fmt.Sprint(err2)})
+}
+
+// ---------------------------------------------------------------------------------------------
+// concurrent writers (same technique as c10_fields' concurrentNewField, with C40's oracle)
+//
+// 2..4 writers call Shard.WritePoints at the same time. Every writer's batch carries, for each of
+// 6..40 fresh measurements, one point that introduces the SAME not-yet-existing field with a type
+// that differs between (at least two of) the writers, interleaved with points that are valid,
+// conflict with the seeded schema, carry a `time` tag or (ValidateKeys) an invalid UTF-8 tag.
+// Writers use their own series and timestamps, so the stored data does not depend on the order.
+//
+// Oracle: no schema is ever removed in this test, so a field keeps the type of whichever writer
+// registered it first. After all writers returned, the recorded type of every raced field must be
+// one that a writer wrote; then, for every writer separately, a point is rejected iff it has a
+// `time` tag / invalid key or one of its fields differs from the recorded type ("rejected for that
+// point only"): PartialWriteError.Dropped must equal that number (nil when 0), accepted points are
+// read back, rejected ones must not be readable.
+
+type cwriter struct {
+	Host  string   `json:"host"`
+	Batch []wpoint `json:"batch"`
+}
+
+func writeErrorVerdict(err error, nRej, n int) (key, detail string) {
+	var pwe tsdb.PartialWriteError
+	var ppwe *tsdb.PartialWriteError
+	if errors.As(err, &ppwe) {
+		pwe = *ppwe
+	}
+	switch {
+	case err == nil:
+		if nRej != 0 {
+			return "rejection-not-reported", fmt.Sprintf("%d of %d points must be rejected but WritePoints returned nil", nRej, n)
+		}
+	case errors.As(err, &pwe) || ppwe != nil:
+		if pwe.Dropped != nRej {
+			return "dropped-count", fmt.Sprintf("PartialWriteError.Dropped=%d but %d of %d points must be rejected (%v)", pwe.Dropped, nRej, n, err)
+		}
+		if nRej == 0 {
+			return "spurious-partial-error", fmt.Sprintf("no point is rejectable, yet WritePoints returned %v", err)
+		}
+	default:
+		return "unexpected-write-error", fmt.Sprintf("WritePoints returned %v (%d of %d points must be rejected)", err, nRej, n)
+	}
+	return "", ""
+}
+
+func TestPropConcurrentPartialWrites(t *testing.T) {
+	defer fixOff.close()
+	defer fixOn.close()
+	rec.Assume("concurrent cases: without deletes a field keeps the type registered first (MeasurementFields.CreateFieldIfNotExists); which writer wins a race on a new field is not specified, so the winner is taken from the recorded schema (it must be a type some writer wrote) and every writer's error, dropped count and stored points are then asserted exactly against it")
+	rec.Check(t, 260, 8000, func(t *rapid.T) {
+		fx := fixOff
+		if rapid.IntRange(0, 2).Draw(t, "validateKeys") == 0 {
+			fx = fixOn
+		}
+		fx.ensure(t)
+		fx.dirty = true
+		fx.cases += 3
+		caseNo++
+		fail := func(key, detail string, ws []cwriter) {
+			rec.Fail(t, "TestPropConcurrentPartialWrites", key, detail+"\nValidateKeys="+fmt.Sprint(fx.vk), map[string]any{"validate_keys": fx.vk, "writers": ws})
+		}
+
+		nM := rapid.IntRange(6, 40).Draw(t, "measurements")
+		nW := rapid.IntRange(2, 4).Draw(t, "writers")
+		ms := make([]string, nM)
+		for k := range ms {
+			ms[k] = fmt.Sprintf("q%d_%d", caseNo, k)
+		}
+		rf := rapid.SampledFrom(newNames).Draw(t, "racedField")
+		seq := 0
+
+		// seeded schema: a, b per measurement; optionally the writers' series exist already
+		sch := map[string]map[string]model.Kind{}
+		ka, kb := rapid.IntRange(0, len(kinds)-1).Draw(t, "ka"), rapid.IntRange(0, len(kinds)-1).Draw(t, "kb")
+		seriesExist := rapid.IntRange(0, 2).Draw(t, "seriesExist") > 0
+		data := map[string]map[int64]model.Val{}
+		put := func(p wpoint) {
+			for _, f := range p.Fields {
+				k := dkey(p.series(), f.Name)
+				if data[k] == nil {
+					data[k] = map[int64]model.Val{}
+				}
+				data[k][p.T] = f.V
+			}
+		}
+		var seed []wpoint
+		for k, m := range ms {
+			sch[m] = map[string]model.Kind{"a": kinds[(ka+k)%len(kinds)], "b": kinds[(kb+2*k)%len(kinds)]}
+			hs := []string{"s0"}
+			if seriesExist {
+				for w := 0; w < nW; w++ {
+					hs = append(hs, fmt.Sprintf("w%d", w))
+				}
+			}
+			for _, h := range hs {
+				seq += 2
+				p := wpoint{Cat: "seed", M: m, Host: h, T: 0, Fields: []wfield{{"a", seqValue(sch[m]["a"], seq)}, {"b", seqValue(sch[m]["b"], seq+1)}}}
+				seed = append(seed, p)
+				put(p)
+			}
+		}
+		toModels := func(b []wpoint) []models.Point {
+			pts := make([]models.Point, 0, len(b))
+			for _, p := range b {
+				x, err := p.toPoint()
+				if err != nil {
+					t.Fatalf("harness: cannot build point %v: %v", p, err)
+				}
+				pts = append(pts, x)
+			}
+			return pts
+		}
+		if err := fx.f.Write(toModels(seed)); err != nil {
+			fail("unexpected-write-error", fmt.Sprintf("seed write of %d valid points: %v", len(seed), err), nil)
+		}
+
+		// writers: type of the raced field per writer (at least writers 0 and 1 differ)
+		wk := make([]int, nW)
+		wk[0] = rapid.IntRange(0, len(kinds)-1).Draw(t, "wk0")
+		wk[1] = (wk[0] + 1 + rapid.IntRange(0, len(kinds)-2).Draw(t, "wk1")) % len(kinds)
+		for w := 2; w < nW; w++ {
+			wk[w] = rapid.IntRange(0, len(kinds)-1).Draw(t, "wk")
+		}
+		racedKind := func(w, k int) model.Kind { return kinds[(wk[w]+k)%len(kinds)] }
+		ws := make([]cwriter, nW)
+		for w := range ws {
+			host := fmt.Sprintf("w%d", w)
+			ws[w].Host = host
+			order := make([]int, nM)
+			rot := rapid.IntRange(0, nM-1).Draw(t, "rot")
+			back := rapid.Bool().Draw(t, "backwards")
+			for i := range order {
+				k := (rot + i) % nM
+				if back {
+					k = (rot + nM - i) % nM
+				}
+				order[i] = k
+			}
+			var b []wpoint
+			add := func(p wpoint) {
+				p.Host = host
+				p.T = int64(1000*(w+1) + len(b))
+				p.Fields = sortFields(p.Fields)
+				b = append(b, p)
+			}
+			valid := func(m string) []wfield {
+				seq++
+				if rapid.Bool().Draw(t, "vf") {
+					return []wfield{{"a", seqValue(sch[m]["a"], seq)}}
+				}
+				return []wfield{{"b", seqValue(sch[m]["b"], seq)}}
+			}
+			for _, k := range order {
+				m := ms[k]
+				// 0..1 other point before the racing one
+				switch x := rapid.IntRange(0, 11).Draw(t, "extra"); {
+				case x == 0:
+					em := rapid.SampledFrom(ms).Draw(t, "em")
+					add(wpoint{Cat: "valid", M: em, Fields: valid(em)})
+				case x == 1:
+					em := rapid.SampledFrom(ms).Draw(t, "em")
+					seq++
+					bad := wfield{"a", seqValue(kinds[(int(sch[em]["a"])+1+rapid.IntRange(0, len(kinds)-2).Draw(t, "other"))%len(kinds)], seq)}
+					fs := []wfield{bad}
+					if rapid.Bool().Draw(t, "withValid") {
+						seq++
+						fs = append(fs, wfield{"b", seqValue(sch[em]["b"], seq)})
+					}
+					add(wpoint{Cat: "conflict", M: em, Fields: fs})
+				case x == 2:
+					em := rapid.SampledFrom(ms).Draw(t, "em")
+					p := wpoint{Cat: "time-tag", M: em, TimeTg: true, Fields: valid(em)}
+					if fx.vk && rapid.Bool().Draw(t, "utf8") {
+						p.Cat, p.TimeTg, p.BadTag = "invalid-utf8-tag", false, true
+					}
+					add(p)
+				}
+				seq++
+				fs := []wfield{{rf, seqValue(racedKind(w, k), seq)}}
+				if rapid.IntRange(0, 3).Draw(t, "raceWithValid") == 0 {
+					fs = append(fs, valid(m)...)
+				}
+				add(wpoint{Cat: "race-new-field", M: m, Fields: fs})
+			}
+			ws[w].Batch = b
+		}
+
+		// run
+		errs := make([]error, nW)
+		var ready int32
+		var wg sync.WaitGroup
+		for w := range ws {
+			pts := toModels(ws[w].Batch)
+			wg.Add(1)
+			go func(w int, pts []models.Point) {
+				defer wg.Done()
+				atomic.AddInt32(&ready, 1)
+				for spin := 0; atomic.LoadInt32(&ready) < int32(nW); spin++ {
+					if spin > 1<<16 { // fewer CPUs than writers: let the others reach the barrier
+						runtime.Gosched()
+					}
+				}
+				errs[w] = fx.f.Write(pts)
+			}(w, pts)
+		}
+		wg.Wait()
+
+		// recorded schema: seeded fields unchanged, raced field has a type some writer wrote
+		e, err := fx.f.Engine()
+		if err != nil {
+			t.Fatalf("engine: %v", err)
+		}
+		for k, m := range ms {
+			obs := map[string]model.Kind{}
+			if mf := e.MeasurementFieldSet().FieldsByString(m); mf != nil {
+				for f, dt := range mf.FieldSet() {
+					obs[f] = kindOf(dt)
+				}
+			}
+			win, ok := obs[rf]
+			if !ok {
+				fail("race-no-type-recorded", fmt.Sprintf("%d writers introduced field %s of %q concurrently; no type is recorded afterwards %s (errors %v)", nW, rf, m, schemaString(obs), errs), ws)
+			}
+			byWriter, distinct := false, map[model.Kind]bool{}
+			for w := range ws {
+				distinct[racedKind(w, k)] = true
+				if racedKind(w, k) == win {
+					byWriter = true
+				}
+			}
+			if !byWriter {
+				fail("race-foreign-type", fmt.Sprintf("recorded type of %q.%s is %s, which no writer wrote", m, rf, schemaString(map[string]model.Kind{rf: win})), ws)
+			}
+			sch[m][rf] = win
+			if schemaString(obs) != schemaString(sch[m]) {
+				fail("schema-mismatch", fmt.Sprintf("recorded fields of %q are %s, model %s", m, schemaString(obs), schemaString(sch[m])), ws)
+			}
+			rec.Class(fmt.Sprintf("concurrent:new-field-race-with-%d-distinct-types", len(distinct)))
+		}
+
+		// per writer: exact error, dropped count; model of accepted points
+		rec.Eval()
+		rec.Class(fmt.Sprintf("concurrent:writers=%d", nW))
+		if seriesExist {
+			rec.Class("concurrent:series-exist-before-race")
+		} else {
+			rec.Class("concurrent:series-created-in-race")
+		}
+		// read back every (series, field) the writers touched in up to 10 of the measurements
+		// (cursor reads dominate the cost of a case; error, dropped count and schema cover all)
+		readM := map[string]bool{}
+		for i, r0 := 0, rapid.IntRange(0, nM-1).Draw(t, "readFrom"); i < nM && i < 10; i++ {
+			readM[ms[(r0+i)%nM]] = true
+		}
+		keys := map[string]bool{}
+		mixed := false
+		for w := range ws {
+			nRej, nRaceLost, nRaceWon, nAcc := 0, 0, 0, 0
+			for _, p := range ws[w].Batch {
+				rec.Class("cpoint:" + p.Cat)
+				rej := p.TimeTg || (fx.vk && p.BadTag)
+				for _, f := range p.Fields {
+					if readM[p.M] {
+						keys[dkey(p.series(), f.Name)] = true
+					}
+					if sch[p.M][f.Name] != f.V.K {
+						rej = true
+					}
+				}
+				switch {
+				case rej && p.Cat == "race-new-field":
+					nRaceLost++
+				case p.Cat == "race-new-field":
+					nRaceWon++
+				}
+				if rej {
+					nRej++
+					continue
+				}
+				nAcc++
+				put(p)
+			}
+			if key, detail := writeErrorVerdict(errs[w], nRej, len(ws[w].Batch)); key != "" {
+				fail(key, fmt.Sprintf("concurrent writer %d of %d (%d of its points lost the race on new field %s, %d won): %s", w, nW, nRaceLost, rf, nRaceWon, detail), ws)
+			}
+			switch {
+			case nRaceLost > 0 && nAcc > 0:
+				mixed = true
+				rec.Class("concurrent:writer-lost-races-and-has-accepted-points")
+			case nRaceLost > 0:
+				rec.Class("concurrent:writer-lost-races-all-rejected")
+			default:
+				rec.Class("concurrent:writer-won-all-races")
+			}
+			if nRaceLost > 0 && nRaceWon > 0 {
+				rec.Class("concurrent:writer-won-some-lost-some-races")
+			}
+		}
+		ks := make([]string, 0, len(keys))
+		for k := range keys {
+			ks = append(ks, k)
+		}
+		sort.Strings(ks)
+		for _, k := range ks {
+			i := strings.IndexByte(k, 0)
+			series, field := k[:i], k[i+1:]
+			got, err := fx.f.Read(series, field, models.MinNanoTime, models.MaxNanoTime, true)
+			if err != nil {
+				fail("read-error", fmt.Sprintf("reading %q %s: %v", series, field, err), ws)
+			}
+			want := data[k]
+			ts := make([]int64, 0, len(want))
+			for t := range want {
+				ts = append(ts, t)
+			}
+			sort.Slice(ts, func(a, b int) bool { return ts[a] < ts[b] })
+			ok := len(got) == len(ts)
+			for j := 0; ok && j < len(ts); j++ {
+				ok = got[j].T == ts[j] && got[j].V.Equal(want[ts[j]])
+			}
+			if !ok {
+				var wv, g []string
+				for _, t := range ts {
+					wv = append(wv, fmt.Sprintf("%d:%s", t, want[t]))
+				}
+				for _, p := range got {
+					g = append(g, fmt.Sprintf("%d:%s", p.T, p.V))
+				}
+				key := "accepted-point-not-stored"
+				if len(got) > len(ts) {
+					key = "rejected-point-stored"
+				} else if len(got) == len(ts) {
+					key = "stored-value-differs"
+				}
+				fail(key, fmt.Sprintf("after concurrent writers: %q field %s: read %v, model of accepted points %v", series, field, g, wv), ws)
+			}
+		}
+		if mixed {
+			var sb strings.Builder
+			fmt.Fprintf(&sb, "concurrent vk=%v field=%s", fx.vk, rf)
+			for w := range ws {
+				fmt.Fprintf(&sb, " | w%d: %s", w, strings.ReplaceAll(renderBatch(ws[w].Batch), fmt.Sprintf("q%d_", caseNo), "Q"))
+			}
+			rec.NonTrivial(sb.String())
+		}
+		fx.dirty = false
+	})
 }
